@@ -106,6 +106,18 @@ def shape(t):
 
 def run_annotate(case, sc):
     pr = G.generate(case["seed"], G.Opts(n_main=6, n_funs=3, errors=0.0, annotate_lets=0.0))
+    bare_return = None
+    if case["seed"] % 4 == 1:
+        # un-annotated functions may mix a bare `return` with a value on other paths: the suggested return type must
+        # account for the Unit path too
+        rets = []
+        for f in pr["funs"]:
+            if f["ret"] != G.UNIT:
+                G.walk(f["body"], lambda n, f=f: rets.append((f, n)) if n.get("k") == "return" and n.get("e") is not None else None)
+        if rets:
+            f, node = rets[case["seed"] % len(rets)]
+            node["e"] = None
+            bare_return = f["name"]
     src, p = printer.print_program(pr, annotate=False)
     path = sc.file(src)
     base = core.run_garden(["run", path], timeout=30, cwd=sc.dir)
@@ -130,8 +142,10 @@ def run_annotate(case, sc):
         st = src.find("fun %s(" % f["name"]) + 4
         pos.append(("return", st, st + len(f["name"]), f["ret"]))
     rng = random.Random(case["seed"])
+    forced = [q for q in pos if q[0] == "return" and bare_return and src[q[1]:q[2]] == bare_return]
     if len(pos) > 8:
         pos = rng.sample(pos, 8)
+    pos = forced + [q for q in pos if q not in forced]
     keys = set()
     for kind, st, en, ty in pos:
         r = core.run_garden(["reftest-add-type-annotation", path, str(st), str(en)], timeout=30, cwd=sc.dir)
@@ -156,11 +170,13 @@ def run_annotate(case, sc):
         detail.update(new_check_errors=new_errs[:5], orig_run=base.brief(), new_run=new.brief())
         if "Parse error" in new.err:
             return {"status": "violated", "key": None, "sig": "annotate:result-does-not-parse:%s" % kind, "detail": detail, "case": wit}
-        if new_errs:
+        if new_errs and not bare_return:
+            # (programs whose `return e` was turned into a bare `return` are ill typed by construction: a correct, more
+            # precise annotation legitimately surfaces their latent errors, so only parsing and behaviour are judged there)
             return {"status": "violated", "key": None, "sig": "annotate:new-check-errors:%s" % kind, "detail": detail, "case": wit}
         if new.cls in core.CRASH or new.cls == "timeout":
             return {"status": "inconclusive", "key": None, "detail": detail}
         if new.out != base.out or first_line(new.err) != first_line(base.err):
             return {"status": "violated", "key": None, "sig": "annotate:behaviour-changed:%s" % kind, "detail": detail, "case": wit}
-        keys.add("annotate|%s|%s|ok" % (kind, shape(ty) if ty else "?"))
+        keys.add("annotate|%s|%s|%s|ok" % (kind, shape(ty) if ty else "?", "bare-return" if bare_return else "plain"))
     return {"status": "held", "key": None, "keys": sorted(keys)}
